@@ -40,14 +40,14 @@ TWINS = {
 
 # batches that are wired into checks (a batch under construction is simply not listed here yet)
 READY = ['core', 'eslice', 'op_eval', 'cfi_lookup', 'cfi_uctx', 'cfi_uctx_link', 'line_hdr', 'attrs', 'units', 'dwarf_ranges', 'index', 'relocate',
-         'conv', 'filter', 'wcore', 'wreloc', 'wop', 'wlists', 'wunit', 'wcfi', 'wline']
+         'conv', 'filter', 'wcore', 'wreloc', 'wop', 'wlists', 'wunit', 'wunit_layout', 'wcfi', 'wline', 'wline_insn', 'leb', 'macros', 'names']
 # batch -> batches whose items it re-verifies completely (so the smaller one need not run as well)
 SUPERSEDES = {'op_eval': ['op'], 'dwarf_ranges': ['lists'], 'cfi_uctx_link': ['cfi_unwind'], 'line_hdr': ['line'], 'cfi_lookup': ['cfi_entries']}
 # tags that only quote another property's vocabulary inside a batch (not obligations of that property)
-IGNORE = {('line_hdr', 'C03'), ('wline', 'C12'), ('filter', 'C01'), ('filter', 'C07'), ('wunit', 'C03'), ('wunit', 'C15'), ('wlists', 'C15'), ('conv', 'C05'), ('index', 'C09')}
+IGNORE = {('line_hdr', 'C03'), ('wline', 'C12'), ('filter', 'C01'), ('filter', 'C07'), ('wunit', 'C03'), ('wunit', 'C15'), ('wlists', 'C15'), ('conv', 'C05'), ('index', 'C09'), ('macros', 'C10'), ('names', 'C10'), ('wunit_layout', 'C16')}
 
 ND = {
-    'C01': 'entry points not extracted (macros.rs, names.rs entry pool, Dwarf/DwarfSections loaders, DwarfPackage, ConvertUnit*), stack depth '
+    'C01': 'entry points not extracted (MacroString::string, Dwarf/DwarfSections loaders, DwarfPackage, ConvertUnit*), stack depth '
            '(Verus models an unbounded stack), EndianReader over user buffer types, wall-clock time; see DESIGN.md 6 C01 and 11.',
     'C02': 'whole-forest equality of the five traversal styles as a statement about sequences (only the step contracts are decided); '
            'validity of DW_AT_sibling targets is an input well-formedness assumption; llvm-dwarfdump agreement.',
@@ -60,19 +60,19 @@ ND = {
     'C07': 'whole-program equality with a reference interpreter for arbitrary-length programs (follows from the step contracts by '
            'induction, not mechanised); totality of steps whose operands are LEB128/address/offset/block sized.',
     'C08': 'unit_ranges (needs the DIE cursor end to end); die_ranges single-range tombstone filtering is not part of the statement.',
-    'C09': 'u128/f32/f64 writers are not in the API; LEB128 functional value is proved by Kani on EndianSlice (complete) and assumed as the '
-           'contract of the delegating trait methods in Verus.',
+    'C09': 'u128/f32/f64 writers are not in the API; the LEB128 contract of the delegating Reader trait methods is proved for the default '
+           'bodies (batch leb, over the read_u8 contract) but remains an assumption for a user reader that overrides them.',
     'C10': 'EndianReader over arbitrary user buffer types (CloneStableDeref is the user\'s contract); AddressSanitizer-style whole-run '
            'checks; positional clauses of EndianSlice are discharged by Kani on bounded buffers only.',
     'C11': 'AbbreviationTable::add, StringTable, LineStringTable (IndexSet/IndexMap), Dwarf::write section order, and the end-to-end '
            'statement "reads back as the same forest": only the size model and per-kind emission are decided.',
     'C12': 'ConvertUnit*/entry-id maps, Expression::from body, ConvertLineProgram (needs the whole reader-side line machine), idempotence '
            'of a second conversion, corpus round trips.',
-    'C13': 'LineProgram::write header/tables, LineString::write, add_file/add_directory identity (IndexMap).',
+    'C13': 'LineProgram::write header/tables/FileInfo emission (closure + IndexMap), add_file/add_directory identity (IndexMap).',
     'C14': 'CIE de-duplication (IndexSet), whole-table round trip.',
     'C15': 'Expression::write body (iterator adapters: assumed contract), evaluation equivalence (follows from decode equality).',
     'C16': 'table de-duplication (IndexSet), end-to-end attr_ranges round trip.',
-    'C17': 'NameIndex::new layout beyond size arithmetic, NameEntry::parse, DwarfPackage assembly, loader wiring (closures), dwp corpus.',
+    'C17': 'NameBucketIter/NameHashIter beyond batch index, case_folding_djb_hash, name_string, DwarfPackage assembly, loader wiring (closures), dwp corpus.',
     'C18': 'that no parser/writer outside the extracted set uses a plain integer primitive for a relocatable field; the '
            'event-to-lowered refinement argument of the relocating writer is stated, not mechanised.',
     'C19': 'FilterUnit::read_entry parent stack, ConvertUnitSection::{new_with_filter, reserve_unit}, ConvertUnit::{read_entry, add_entry}, '
